@@ -20,10 +20,12 @@
    harness asks from crypto/x509 per certificate); [abs_of] is the abstraction
    that does so by construction, so the hypothesis is never vacuous.
 
-   x509TrustStore.GetCertificates itself is outside the translator (see
-   docs/audit/C13.md, section GoLite): [C13_gen_entry_step] / [C13_gen_store_of_files]
-   tie the generated validators to the place of the model (load_entries) where the
-   same decisions are made. *)
+   x509TrustStore.GetCertificates translates too (operating system, dir.SysFS and the parser
+   of notation-core-go are oracles): [C13_gen_GetCertificates_all_or_nothing] (for EVERY oracle
+   behaviour the result is (nil, error) or (exactly all certificates of all entries, nil)),
+   [C13_gen_GetCertificates_equiv] / [_loadable] (= the model for every world that answers like
+   the model's tree). [C13_gen_entry_step] / [C13_gen_store_of_files] tie the generated
+   validators to the place of the model (load_entries) where the same decisions are made. *)
 From Coq Require Import List Bool String Ascii NArith ZArith Lia.
 From NV Require Import Base Regex Generated GoLib C13_Model C13_Proofs C13_Gen.
 Import ListNotations.
